@@ -21,6 +21,10 @@ func init() {
 func runC02(r *Run, p *Prog) {
 	// F6: the carry-over between segments lives in one buffered reader: every read primitive of the connection consumes through it
 	siblingRules(r, p, "C18", []string{"U1", "U1b", "U1c"}, "F6")
+	// F7: that reader reads the connection itself for the connection's whole life (a wrapper that ends the stream early - a byte budget, a limit - loses every frame behind it)
+	siblingRules(r, p, "C18", []string{"U3"}, "F7")
+	// F8: the standard error replies are frames too: they are valid JSON for every name a client can send only if their members are rendered by encoding/json from typed values
+	siblingRules(r, p, "C12", []string{"X2"}, "F8")
 	ro := DiscoverRoles(p)
 	T, cg := ro.T, ro.CG
 	// ---- F1
